@@ -94,6 +94,24 @@ impl Outcome {
             _ => None,
         }
     }
+
+    /// Appends the expectation lines and the exit code line. An expectation that
+    /// is kept as it was written and starts like a continuation line (`> ..`) would
+    /// be read as a part of the shell expression directly behind it: the exit code
+    /// line, which is what kept them apart before, then goes in front (also `[0]`).
+    fn push_expectations_and_exit_code(&self, generated: &mut String, first_kept: bool, lines: &str) {
+        if first_kept && lines.starts_with("> ") {
+            if let ExitStatus::Code(code) = &self.output.exit_code {
+                generated.push_str(&formatln!("[{}]", code));
+                generated.push_str(lines);
+                return;
+            }
+        }
+        generated.push_str(lines);
+        if let Some(exit_code) = self.generate_testcase_exit_code() {
+            generated.push_str(&exit_code)
+        }
+    }
 }
 
 impl OutcomeTestGenerator for Outcome {
@@ -101,12 +119,11 @@ impl OutcomeTestGenerator for Outcome {
         match &self.result {
             Ok(_) => {
                 let mut generated = self.generate_testcase_expression();
+                let mut lines = String::new();
                 self.testcase.expectations.iter().for_each(|expectation| {
-                    generated.push_str(&expectation.original_string().assure_newline())
+                    lines.push_str(&expectation.original_string().assure_newline())
                 });
-                if let Some(exit_code) = self.generate_testcase_exit_code() {
-                    generated.push_str(&exit_code)
-                }
+                self.push_expectations_and_exit_code(&mut generated, true, &lines);
                 Ok(generated)
             }
             Err(err) => match err {
@@ -114,6 +131,8 @@ impl OutcomeTestGenerator for Outcome {
                     let mut generated = self.generate_testcase_expression();
 
                     // output the actual recorded output lines
+                    let mut written = String::new();
+                    let mut first_kept = None;
                     for diff_line in diff.lines.iter() {
                         match diff_line {
                             DiffLine::MatchedExpectation {
@@ -121,19 +140,23 @@ impl OutcomeTestGenerator for Outcome {
                                 expectation,
                                 lines: _,
                             } => {
-                                generated.push_str(&expectation.original_string().assure_newline())
+                                first_kept.get_or_insert(true);
+                                written.push_str(&expectation.original_string().assure_newline())
                             }
                             DiffLine::UnexpectedLines { lines } => {
                                 for (_, line) in lines {
-                                    generated.push_str(&self.generate_expectation_line(line))
+                                    first_kept.get_or_insert(false);
+                                    written.push_str(&self.generate_expectation_line(line))
                                 }
                             }
                             _ => continue,
                         }
                     }
-                    if let Some(exit_code) = self.generate_testcase_exit_code() {
-                        generated.push_str(&exit_code)
-                    }
+                    self.push_expectations_and_exit_code(
+                        &mut generated,
+                        first_kept.unwrap_or(false),
+                        &written,
+                    );
                     Ok(generated)
                 }
                 TestCaseError::InvalidExitCode {
